@@ -38,6 +38,25 @@ def load_known(prop: str):
     return [f for f in data.get("findings", []) if f.get("property") == prop and f.get("status", "open") == "open"]
 
 
+def changed_functions(prop: str):
+    cur = json.load(open(os.path.join(VERIF, "build", "fingerprints.json")))
+    base = json.load(open(os.path.join(VERIF, "harness", "fingerprints_baseline.json")))
+    files = []
+    for l in open(os.path.join(VERIF, "properties.jsonl")):
+        p = json.loads(l)
+        if p["id"] == prop:
+            files = p["anchors"]["files"]
+    def strip(d):
+        # key = file:function (line numbers move when code above changes)
+        out = {}
+        for k, v in d.items():
+            f, name, _ = k.rsplit(":", 2)
+            out.setdefault((f, name), set()).add(v)
+        return out
+    c, b = strip(cur), strip(base)
+    return sorted(f"{f}:{n}" for (f, n) in set(c) | set(b) if f in files and c.get((f, n)) != b.get((f, n)))
+
+
 def write_replay(prop: str, payload: dict) -> str:
     d = os.path.join(VERIF, "replays", prop)
     os.makedirs(d, exist_ok=True)
@@ -107,6 +126,16 @@ def main(argv=None) -> int:
         print(f"INFRA: build failed: {e}")
         traceback.print_exc()
         return 2
+    # functions of the anchored files whose normalised AST differs from the committed baseline:
+    # not an alarm, only a reason to look harder (budget ×3 for this run)
+    try:
+        changed = changed_functions(prop)
+        if changed:
+            ctx.scale = 3.0
+            ctx.note(f"{len(changed)} function(s) of the anchored files differ from the fingerprint baseline "
+                     f"({', '.join(changed[:6])}{' …' if len(changed) > 6 else ''}): case budget ×3")
+    except Exception:  # noqa: BLE001
+        pass
     try:
         if args.replay:
             return mod.replay(ctx, args.replay)
@@ -114,6 +143,9 @@ def main(argv=None) -> int:
             mod.run(ctx)
         except InfraError:
             raise
+        except Exception as e:  # noqa: BLE001 - harness code choked on what the real code returned
+            tb = traceback.format_exc().strip().splitlines()[-8:]
+            ctx.corr_diff("harness-exception:run", dict(note="the run was cut short"), f"{type(e).__name__}: {e}", tb)
         # obligations / correspondence broken and no concrete failing input yet: deepen
         broken = bool(binfo.broken) or ctx.n_corr_diffs > 0
         known = load_known(prop)
